@@ -174,9 +174,10 @@ var infixOps = map[string]opInfo{
 	"+": {7, 0}, "-": {7, 0},
 	"*": {8, 0}, "/": {8, 0}, "%": {8, 0},
 	"^": {9, 1},
+	"or": {3, 0}, "and": {4, 0},
 }
 
-var prefixOps = map[string]bool{"+": true, "-": true, "!": true}
+var prefixOps = map[string]bool{"+": true, "-": true, "!": true, "not": true}
 
 func IsInfixOp(n string) bool  { _, ok := infixOps[n]; return ok }
 func IsPrefixOp(n string) bool { return prefixOps[n] }
@@ -273,7 +274,7 @@ func render(e *E) (string, float64) {
 				x = paren(x, xb, bpPrefix, true)
 				// "- -x" and "! !x": keep operator characters apart
 				sep := ""
-				if len(x) > 0 && strings.ContainsRune("+-!", rune(x[0])) {
+				if len(x) > 0 && strings.ContainsRune("+-!", rune(x[0])) || isIdentName(e.Name) {
 					sep = " "
 				}
 				return e.Name + sep + x, bpPrefix
@@ -288,7 +289,7 @@ func render(e *E) (string, float64) {
 				return c + " ? " + a + " : " + b, bpCond
 			}
 		case FMethod:
-			if len(e.Args) >= 1 && isIdentName(e.Name) {
+			if len(e.Args) >= 1 && isIdentName(e.Name) && !IsInfixOp(e.Name) && !IsPrefixOp(e.Name) {
 				o, ob := render(e.Args[0])
 				if e.Args[0].K == ENum {
 					o, ob = "("+o+")", bpAtom
@@ -302,7 +303,7 @@ func render(e *E) (string, float64) {
 		}
 		// plain call form; operator-named functions cannot be written as
 		// f(...) in source, fall back to the operator form
-		if !isIdentName(e.Name) {
+		if !isIdentName(e.Name) || IsInfixOp(e.Name) || IsPrefixOp(e.Name) {
 			c := *e
 			if len(e.Args) == 2 && IsInfixOp(e.Name) {
 				c.Form = FInfix
@@ -336,4 +337,25 @@ func isIdentName(s string) bool {
 		return false
 	}
 	return true
+}
+
+// Renderable reports whether every call can be written in source text
+// (operator-named functions only in their operator form and arity).
+func Renderable(e *E) bool {
+	ok := true
+	e.Walk(func(x *E) {
+		if x.K == ECall && (!isIdentName(x.Name) || IsInfixOp(x.Name) || IsPrefixOp(x.Name)) {
+			if !(len(x.Args) == 2 && IsInfixOp(x.Name)) && !(len(x.Args) == 1 && IsPrefixOp(x.Name)) {
+				ok = false
+			}
+		}
+		if x.K == EObj {
+			for _, f := range x.Fields {
+				if !isIdentName(f) {
+					ok = false
+				}
+			}
+		}
+	})
+	return ok
 }
